@@ -694,8 +694,10 @@ def _check_gaussian(ctx, repo, init: FuncInfo) -> None:
                   f"linspace {k} is {got.key()}, expected {txt} = {want.key()}", key_detail=k)
 
     # weights = exp(-1/2 (v-c)^2 / σ^2), then normalised in the literal arm
-    wdefs = df.reaching(at, wname)
-    base = [d for d in wdefs if d.kind == "assign" and d.strong]
+    body_nodes = df.cfg.loop_body_nodes(hdr)
+    wdefs = [d for d in df.defs if d.var == wname and d.node in body_nodes]
+    base = [d for d in wdefs if d.kind == "assign" and d.strong and d.value is not None
+            and wname not in {n.id for n in ast.walk(d.value) if isinstance(n, ast.Name)}]
     ctx.require(len(base) == 1, f"{f.qualname}: expected one defining assignment of `{wname}`, found {len(base)}")
     wdef = base[0]
     wexpr = _strip(wdef.value)
